@@ -7,6 +7,7 @@ package feedsim
 import (
 	"encoding/json"
 	"fmt"
+	"os"
 	"sort"
 	"sync"
 	"testing"
@@ -156,6 +157,12 @@ type genFeed struct{ f event.FeedOf[int] }
 func (f *genFeed) Subscribe(ch chan int) event.Subscription { return f.f.Subscribe(ch) }
 func (f *genFeed) Send(v int) int                           { return f.f.Send(v) }
 
+// debugging aid (determinism investigations)
+var (
+	DebugTrace []string
+	debugOn    = os.Getenv("FEED_DEBUG") != ""
+)
+
 // history
 type subRec struct {
 	id       int // subscription instance id
@@ -257,6 +264,14 @@ func Run(t *testing.T, pl any) *simcore.Result {
 				recvLoop:
 					for k := 0; k < ph.Recv; k++ {
 						sched.Gate(fmt.Sprintf("R%d:recv:%d:%d", i, pi, k))
+						// value first: when the last sender has finished, quit and a buffered
+						// value may both be ready, and Go's select would choose at random
+						select {
+						case v := <-ch:
+							rec.recv = append(rec.recv, v)
+							continue
+						default:
+						}
 						select {
 						case v := <-ch:
 							rec.recv = append(rec.recv, v)
@@ -289,7 +304,11 @@ func Run(t *testing.T, pl any) *simcore.Result {
 				}
 			})
 		}
+		sched.KeepLog = DebugTrace == nil && debugOn
 		sched.Run()
+		if debugOn {
+			DebugTrace = sched.Trace
+		}
 		if sched.Err != nil {
 			stuck = sched.Err.Error()
 		}
